@@ -1,14 +1,18 @@
 import IrVerif.Props.C18
 open IrVerif.Extract
 #print axioms C18_nodes_exact
+#print axioms C18_nodes_exact_free
 #print axioms C18_values_exact
 #print axioms C18_order
 #print axioms C18_inits
 #print axioms C18_raises_iff
-#print axioms C18_external_exact
-#print axioms C18_captures_exact
+#print axioms C18_external_free
 #print axioms C18_eval
 #print axioms C18_cover_of_clone
 #print axioms C18_raises_of_uncovered
+#print axioms C18_extract_eval
+#print axioms C18_extract_unbounded_iff
+#print axioms C18_captures_keys
 #print axioms C18_captures_complete
 #print axioms C18_captures_sound
+#print axioms C18_independent
